@@ -19,7 +19,6 @@ import (
 	"runtime"
 	"strings"
 	"testing"
-	"time"
 
 	"pgregory.net/rapid"
 
@@ -32,7 +31,7 @@ const rule = "case = (setup state, steps); steps are debugger command lines (wor
 type Step struct {
 	Op   string   `json:"op"`             // cmd | start | release | stop | boe | finish
 	Prog string   `json:"prog,omitempty"` // start: program name
-	Flag bool     `json:"flag,omitempty"` // boe: value for BreakOnError
+	Flag bool     `json:"flag,omitempty"` // boe: value for BreakOnError; start: set the program's canonical breakpoint first
 	Word string   `json:"word,omitempty"` // cmd: command word
 	Args []string `json:"args,omitempty"` // cmd: arguments ($-tokens are resolved against the live state)
 }
@@ -55,7 +54,7 @@ func TestMain(m *testing.M) {
 // Setup states
 // ---------------------------------------------------------------------------
 
-var setups = []string{"fresh", "parsed", "finished", "running", "running-deep", "running-interrogated",
+var setups = []string{"fresh", "parsed", "finished", "running", "running-deep", "running-mutex", "running-interrogated",
 	"susp-top", "susp-nested", "err-top", "err-nested", "finished-stale", "stopped", "mixed"}
 
 func (s *session) setup(name string) *hx.Failure {
@@ -115,6 +114,8 @@ func (s *session) setup(name string) *hx.Failure {
 		return run("start hold")
 	case "running-deep":
 		return run("start hold", "release", "release")
+	case "running-mutex":
+		return run("start hold", "release", "release", "release")
 	case "running-interrogated":
 		return run("break hold:3", "start hold", "cont stepover", "cont stepover")
 	case "susp-top":
@@ -139,7 +140,7 @@ func (s *session) setup(name string) *hx.Failure {
 // another state would hollow out the table)
 var setupLabel = map[string]string{
 	"fresh": "fresh", "parsed": "parsed", "finished": "finished", "running": "running",
-	"running-deep": "running-deep", "running-interrogated": "running-interrogated",
+	"running-deep": "running-deep", "running-mutex": "running-mutex", "running-interrogated": "running-interrogated",
 	"susp-top": "susp-top", "susp-nested": "susp-nested", "err-top": "err-top", "err-nested": "err-nested",
 	"finished-stale": "finished-stale", "stopped": "stopped", "mixed": "running+susp-nested",
 }
@@ -161,14 +162,14 @@ var (
 		{"$src", "tgt.nocolon"}, {"$src:x", "tgt.nonum"}, {"$src:-1", "tgt.neg"}, {"$src:0", "tgt.zero"}, {"a:1:2", "tgt.colons"},
 		{":", "tgt.colon-only"}, {":5", "tgt.nosrc"}, {"$src:99999999999999999999", "tgt.huge"}, {"✓:ü", "garbage"}}
 	kinds   = []tok{{"resume", "kind.resume"}, {"stepin", "kind.stepin"}, {"stepover", "kind.stepover"}, {"stepout", "kind.stepout"}, {"StepOut", "kind.StepOut"}, {"RESUME", "kind.RESUME"}, {"jump", "kind.bad"}}
-	bools   = []tok{{"true", "bool.true"}, {"false", "bool.false"}, {"1", "bool.1"}, {"maybe", "bool.bad"}}
-	exSrc   = []tok{{"z", "id.param"}, {"a", "id.global"}, {"nosuch", "id.undef"}, {"_x", "id.invalid"}, {"c.0", "id.dotted"}}
-	exDst   = []tok{{"x", "id.new"}, {"a", "id.global"}, {"1x", "id.invalid"}}
-	injVars = []tok{{"z", "id.param"}, {"a", "id.global"}, {"x", "id.new"}, {"_x", "id.invalid"}, {"c.0", "id.dotted"}, {"c.9", "id.dotted-oob"}, {"c.-5", "id.dotted-neg"}, {"a.b", "id.dotted-noncontainer"}, {"d.y.0", "id.dotted-deep"}}
-	exprs   = []tok{{"1+1", "expr.ok"}, {"\"a\"", "expr.string"}, {"1+\"a\"", "expr.illtyped"}, {"1+", "expr.syntax"}, {"a", "expr.ident"},
-		{"nosuch", "expr.undef"}, {"[1,{2:3}]", "expr.container"}, {"len([1])", "expr.call"}, {")", "expr.garbage"}}
+	bools   = []tok{{"true", "bool.true"}, {"false", "bool.false"}, {"1", "lit.1"}, {"maybe", "bool.bad"}}
+	exSrc   = []tok{{"z", "lit.z"}, {"a", "lit.a"}, {"nosuch", "lit.nosuch"}, {"_x", "lit._x"}, {"c.0", "lit.c.0"}}
+	exDst   = []tok{{"x", "lit.x"}, {"a", "lit.a"}, {"1x", "id.invalid"}}
+	injVars = []tok{{"z", "lit.z"}, {"a", "lit.a"}, {"x", "lit.x"}, {"_x", "lit._x"}, {"c.0", "lit.c.0"}, {"c.9", "id.dotted-oob"}, {"c.-5", "id.dotted-neg"}, {"a.b", "id.dotted-noncontainer"}, {"d.y.0", "id.dotted-deep"}}
+	exprs   = []tok{{"1+1", "expr.ok"}, {"\"a\"", "expr.string"}, {"1+\"a\"", "expr.illtyped"}, {"1+", "expr.syntax"}, {"a", "lit.a"},
+		{"nosuch", "lit.nosuch"}, {"[1,{2:3}]", "expr.container"}, {"len([1])", "expr.call"}, {")", "expr.garbage"}}
 	exprTail = []tok{{"+", "expr.tail-op"}, {"; 2", "expr.tail-stmt"}}
-	extras   = []tok{{"x", "extra.word"}, {"1", "extra.num"}}
+	extras   = []tok{{"x", "lit.x"}, {"1", "lit.1"}}
 )
 
 // positions per command word; the last list is the "arity + 1" position
@@ -275,38 +276,6 @@ func (s *session) resolve(arg string, v map[uint64]tview) (string, string) {
 	return r.Replace(arg), class
 }
 
-type probeResult struct {
-	res interface{}
-	err error
-	f   *hx.Failure
-}
-
-const probeBound = 5 * time.Second
-
-// probe sends "status" on its own goroutine and waits for the answer.
-func (s *session) probe() (interface{}, *hx.Failure) {
-	ch := make(chan probeResult, 1)
-	go func() {
-		var pr probeResult
-		pr.f = hx.Guard(func() { pr.res, pr.err = s.dbg.HandleInput("status") })
-		ch <- pr
-	}()
-	t := time.NewTimer(probeBound)
-	defer t.Stop()
-	select {
-	case pr := <-ch:
-		if pr.f != nil {
-			return nil, pr.f
-		}
-		if pr.err != nil {
-			return nil, hx.Failf("status-error", "status returned an error: %v", pr.err)
-		}
-		return pr.res, nil
-	case <-t.C:
-		return nil, hx.Failf("lock-held", "status did not answer within %v", probeBound)
-	}
-}
-
 func marshal(v interface{}) (err error) {
 	defer func() {
 		if r := recover(); r != nil {
@@ -362,9 +331,15 @@ func runCase(c Case) (fail *hx.Failure) {
 	for i, st := range c.Steps {
 		switch st.Op {
 		case "start":
-			if len(s.active()) >= maxActive || programs[st.Prog] == nil {
+			if len(s.active()) >= maxActive || programs[st.Prog] == nil || (st.Prog == "hold" && s.running("hold")) {
+				// (two threads inside the hold program would contend for its ECAL mutex)
 				hx.E.Class("step.noop", 1)
 				continue
+			}
+			if st.Flag {
+				if f := s.cmd(fmt.Sprintf("break %s:%d", programs[st.Prog].Src, programs[st.Prog].BP)); f != nil {
+					return f
+				}
 			}
 			if err := s.start(st.Prog); err != nil {
 				return hx.Failf("setup-error", "cannot start %v: %v", st.Prog, err)
@@ -387,7 +362,7 @@ func runCase(c Case) (fail *hx.Failure) {
 			}
 			hx.E.Class("step.stop", 1)
 		case "boe":
-			if f := hx.Guard(func() { s.dbg.BreakOnError(st.Flag) }); f != nil {
+			if f := s.bounded("hang:BreakOnError", "BreakOnError", func() { s.dbg.BreakOnError(st.Flag) }); f != nil {
 				return f
 			}
 			hx.E.Class("step.boe", 1)
@@ -427,9 +402,8 @@ func runCase(c Case) (fail *hx.Failure) {
 				hx.E.Class("arg."+a, 1)
 			}
 
-			var res interface{}
-			var err error
-			if f := hx.Guard(func() { res, err = s.dbg.HandleInput(line) }); f != nil {
+			res, err, f := s.call(line)
+			if f != nil {
 				f.Msg = fmt.Sprintf("step %d: HandleInput(%q) in state %s: %s", i, line, state, f.Msg)
 				return f
 			}
@@ -445,13 +419,17 @@ func runCase(c Case) (fail *hx.Failure) {
 					return hx.Failf("not-json:"+word, "step %d: HandleInput(%q) in state %s returned a result which json.Marshal rejects: %s", i, line, state, short(merr.Error()))
 				}
 			}
-			pres, f := s.probe()
+			if f := s.writeProbe(); f != nil {
+				f.Msg = fmt.Sprintf("step %d: after HandleInput(%q) in state %s: %s", i, line, state, f.Msg)
+				return f
+			}
+			pres, f := s.status()
 			if f != nil {
 				f.Msg = fmt.Sprintf("step %d: after HandleInput(%q) in state %s: %s", i, line, state, f.Msg)
 				return f
 			}
 			if !s.quiesce() {
-				return hx.Failf("no-quiescence", "step %d: after HandleInput(%q) in state %s", i, line, state)
+				return hx.Failf("no-quiescence", "step %d: after HandleInput(%q) in state %s; program goroutines: %s", i, line, state, s.where())
 			}
 			if merr := marshal(pres); merr != nil {
 				return hx.Failf("not-json:status", "step %d: status after HandleInput(%q) in state %s returned a result which json.Marshal rejects: %s", i, line, state, short(merr.Error()))
@@ -462,7 +440,7 @@ func runCase(c Case) (fail *hx.Failure) {
 			continue
 		}
 		if !s.quiesce() {
-			return hx.Failf("no-quiescence", "step %d (%s)", i, st.Op)
+			return hx.Failf("no-quiescence", "step %d (%s); program goroutines: %s", i, st.Op, s.where())
 		}
 	}
 
@@ -485,7 +463,7 @@ func runCase(c Case) (fail *hx.Failure) {
 func TestRegress(t *testing.T) { hx.Regress(t, runCase) }
 
 func assume() {
-	hx.E.Assume("lock-held rule: HandleInput(\"status\") only takes the debugger's RWMutex for reading (ecalDebugger.Status) and neither waits on a condition nor calls into a thread; if it has not answered after 5 s while the harness issues no other command, a debugger lock is held for good")
+	hx.E.Assume("lock-held rule: HandleInput(\"status\") only takes the debugger's RWMutex for reading (ecalDebugger.Status), HandleInput(\"rmbreak <unused source>\") only takes it for writing (RemoveBreakPoint) and changes nothing; neither waits on a condition nor calls into a thread, and suspended threads do not hold that lock while they wait (VisitState, VisitStepInState and VisitStepOutState release it before cond.Wait); if one of the two has not answered after 5 s while the harness issues no other command, a debugger lock is held for good. Every other call into the debugger is bounded the same way (signature hang:<what>)")
 	hx.E.Assume("commands are issued from one goroutine and only at quiescent points: every program thread is finished, inside the harness' blocking Go function, or parked in sync.Cond.Wait below a debugger frame (read from a goroutine dump), so the lost-wake-up window between publishing 'suspended' and waiting (property C15) is not entered")
 	hx.E.Assume("StopThreads is only called with at most one suspended thread (it iterates the thread table without the lock: data races are outside C16)")
 	hx.E.Assume("program threads are started the way cli/tool/interpret.go does: Eval on a new thread id, RecordThreadFinished deferred")
@@ -512,6 +490,10 @@ func tuples(word string, yield func([]string) bool) bool {
 	return rec(0, nil)
 }
 
+// walkLen is the number of (probe, cont, release) rounds of a walk case; the
+// longest program needs fewer than 60 single steps.
+const walkLen = 70
+
 func tableWords() []string {
 	return append(append(append([]string{}, words...), unknownWords...), "")
 }
@@ -533,6 +515,32 @@ func TestExhaustive(t *testing.T) {
 			}
 		}
 	}, runCase)
+	// walk: single-step through every program from its first statement and
+	// send one probing command at every stop, so that describe / extract /
+	// inject / lockstate meet every kind of statement a thread can stop at
+	kindsW := []string{"stepin", "stepover", "stepout", "resume"}
+	probes := [][]string{{"describe", "$susp"}, {"extract", "$susp", "x", "y"}, {"inject", "$susp", "x", "1+1"},
+		{"lockstate"}, {"status"}, {"describe", "$run"}, {"break", "$src:$bp2"}}
+	hx.Enumerate(t, "walk", func(yield func(Case) bool) {
+		for _, prog := range progNames {
+			for _, k := range kindsW {
+				for _, pr := range probes {
+					for _, boe := range []bool{true, false} {
+						steps := []Step{{Op: "boe", Flag: boe}, {Op: "cmd", Word: "breakonstart", Args: []string{"true"}}, {Op: "start", Prog: prog}}
+						for i := 0; i < walkLen; i++ {
+							steps = append(steps, Step{Op: "cmd", Word: pr[0], Args: pr[1:]},
+								Step{Op: "cmd", Word: "cont", Args: []string{"$susp", k}}, Step{Op: "release"})
+						}
+						if !yield(Case{Setup: "fresh", Steps: steps}) {
+							return
+						}
+					}
+				}
+			}
+		}
+	}, runCase)
+	hx.E.Exhaustive("walk", map[string]interface{}{"programs": progNames, "cont": kindsW, "probes": probes, "break_on_error": []bool{true, false}, "stops_per_case": walkLen})
+
 	sh := map[string][]string{}
 	for w, pos := range shapes {
 		for _, p := range pos {
@@ -546,18 +554,31 @@ func TestExhaustive(t *testing.T) {
 	hx.E.Exhaustive("table", map[string]interface{}{"setups": setups, "words": tableWords(), "positions": sh})
 }
 
+// commands first: rapid favours small indices
+var opWeights = func() []string {
+	var w []string
+	for _, e := range []struct {
+		op string
+		n  int
+	}{{"cmd", 20}, {"start", 4}, {"release", 3}, {"stop", 1}, {"boe", 1}, {"finish", 1}} {
+		for i := 0; i < e.n; i++ {
+			w = append(w, e.op)
+		}
+	}
+	return w
+}()
+
 func drawStep(rt *rapid.T) Step {
-	k := rapid.IntRange(0, 99).Draw(rt, "kind")
-	switch {
-	case k < 8:
-		return Step{Op: "start", Prog: rapid.SampledFrom(progNames).Draw(rt, "prog")}
-	case k < 14:
+	switch rapid.SampledFrom(opWeights).Draw(rt, "op") {
+	case "start":
+		return Step{Op: "start", Prog: rapid.SampledFrom(progNames).Draw(rt, "prog"), Flag: rapid.Bool().Draw(rt, "bp")}
+	case "release":
 		return Step{Op: "release"}
-	case k < 17:
+	case "stop":
 		return Step{Op: "stop"}
-	case k < 20:
+	case "boe":
 		return Step{Op: "boe", Flag: rapid.Bool().Draw(rt, "flag")}
-	case k < 22:
+	case "finish":
 		return Step{Op: "finish"}
 	}
 	var w string
@@ -571,7 +592,14 @@ func drawStep(rt *rapid.T) Step {
 		return Step{Op: "cmd", Word: "cont", Args: []string{"$susp", rapid.SampledFrom(kinds[:4]).Draw(rt, "k").s}}
 	}
 	shape := shapes[w]
-	n := rapid.IntRange(0, 4).Draw(rt, "n")
+	// mostly the arity the command expects, otherwise anything in 0..4
+	n := len(shape) - 1
+	if n < 0 {
+		n = 0
+	}
+	if rapid.IntRange(0, 9).Draw(rt, "arity") < 4 {
+		n = rapid.IntRange(0, 4).Draw(rt, "n")
+	}
 	var args []string
 	for i := 0; i < n; i++ {
 		if i < len(shape) && len(shape[i]) > 0 && rapid.IntRange(0, 9).Draw(rt, "typed") < 8 {
@@ -586,9 +614,17 @@ func drawStep(rt *rapid.T) Step {
 func TestProp(t *testing.T) {
 	assume()
 	hx.Check(t, func(rt *rapid.T) Case {
+		// several slices: rapid's slice lengths are geometric (mean about 6),
+		// and slice elements (unlike a drawn length) shrink by deletion
+		step := rapid.Custom(drawStep)
+		steps := rapid.SliceOfN(step, 1, 20).Draw(rt, "steps")
+		steps = append(steps, rapid.SliceOfN(step, 0, 20).Draw(rt, "steps2")...)
+		if hx.Thorough() {
+			steps = append(steps, rapid.SliceOfN(step, 0, 20).Draw(rt, "steps3")...)
+		}
 		return Case{
 			Setup: rapid.SampledFrom(setups).Draw(rt, "setup"),
-			Steps: rapid.SliceOfN(rapid.Custom(drawStep), 1, 24).Draw(rt, "steps"),
+			Steps: steps,
 		}
 	}, runCase)
 }
